@@ -8,22 +8,23 @@ from pandapower.run import runpp, set_user_pf_options
 import inspect
 
 key = 'algorithm'
+stored_key = 'algorithm'     # the name under which the option of this argument is stored
 sig = inspect.signature(runpp)
 default = sig.parameters[key].default if key in sig.parameters else None
 model_arg, model_arg_ok = 'nr', True
-alts = {'algorithm': 'bfsw', 'calculate_voltage_angles': False, 'init': 'flat', 'max_iteration': 17, 'tolerance_mva': 1e-06, 'trafo_model': 'pi', 'trafo_loading': 'power', 'enforce_q_lims': True, 'check_connectivity': False, 'voltage_depend_loads': False, 'consider_line_temperature': True, 'distributed_slack': True, 'tdpf': False, 'tdpf_delay_s': None, 'trafo3w_losses': 'star', 'v_debug': True, 'delta_q': 0.001, 'switch_rx_ratio': 3, 'numba': False, 'neglect_open_switch_branches': True, 'only_v_results': True, 'use_umfpack': False, 'permc_spec': 'NATURAL', 'lightsim2grid': False, 'tdpf_update_r_theta': False, 'zz_generic_option': 42}
+alts = {'algorithm': 'bfsw', 'calculate_voltage_angles': False, 'init': 'flat', 'max_iteration': 17, 'tolerance_mva': 1e-06, 'trafo_model': 'pi', 'trafo_loading': 'power', 'enforce_q_lims': True, 'check_connectivity': False, 'voltage_depend_loads': False, 'consider_line_temperature': True, 'distributed_slack': True, 'tdpf': False, 'tdpf_delay_s': None, 'trafo3w_losses': 'star', 'v_debug': True, 'delta_q': 0.001, 'switch_rx_ratio': 3, 'numba': False, 'neglect_open_switch_branches': True, 'only_v_results': True, 'use_umfpack': False, 'permc_spec': 'NATURAL', 'lightsim2grid': False, 'tdpf_update_r_theta': False, 'delta': 25.0, 'zz_generic_option': 42}
 candidates = []
 if model_arg_ok:
     candidates.append(model_arg)
 if key in sig.parameters:
     candidates.append(default)
 candidates.append(alts.get(key))
-stored_candidates = [alts.get(key), default, 123]
+stored_candidates = [alts.get(stored_key), default, 123]
 
 def options_after(passed_value, stored, with_store):
     net = nw.example_simple()
     if with_store:
-        set_user_pf_options(net, **{key: stored})
+        set_user_pf_options(net, **{stored_key: stored})
     try:
         runpp(net, **{key: passed_value})
         return ("return", dict(net._options))
@@ -60,7 +61,7 @@ for pv in candidates:
         b = options_after(pv, sv, False)
         if not same(a, b):
             diff = {x: (a[1].get(x), b[1].get(x)) for x in set(a[1]) | set(b[1]) if a[1].get(x) != b[1].get(x)}
-            print("VIOLATION REPRODUCED: runpp(net, %s=%r) with user_pf_options[%r]=%r" % (key, pv, key, sv))
+            print("VIOLATION REPRODUCED: runpp(net, %s=%r) with user_pf_options[%r]=%r" % (key, pv, stored_key, sv))
             print("  exit with stored option: %s ; without: %s ; differing options: %r" % (a[0], b[0], diff))
             sys.exit(1)
 print("not reproduced for key", key)
